@@ -509,6 +509,26 @@ def direct_shaped(t, d=0):
     return False
 
 
+def has_unnamed_struct(t, d=0):
+    """an unnamed struct type occurs in the type expression (not looking through named types)"""
+    if d > 8:
+        return False
+    t = unalias(t)
+    if isinstance(t, Struct):
+        return True
+    if isinstance(t, (Ptr, Slice, Array, Chan)):
+        return has_unnamed_struct(t.elem, d + 1)
+    if isinstance(t, Map):
+        return has_unnamed_struct(t.key, d + 1) or has_unnamed_struct(t.elem, d + 1)
+    if isinstance(t, Func):
+        return any(has_unnamed_struct(x, d + 1) for x in t.params + t.results)
+    if isinstance(t, Inst):
+        return any(has_unnamed_struct(a, d + 1) for a in t.args)
+    if isinstance(t, Iface):
+        return any(has_unnamed_struct(x, d + 1) for m in t.all_methods().values() for x in m.params + m.results)
+    return False
+
+
 def embeds_inst(t, d=0):
     """a generic instance (or something promoting its methods) is embedded, directly or through embedded structs"""
     if d > 6:
@@ -854,7 +874,17 @@ class TypeGen:
             return Struct([Field("K%d" % i, self.key_type(pkg, d + 2)) for i in range(r.randint(1, 2))])
         return Basic(r.choice(["complex128", "int"]))
 
-    def type_arg(self, pkg, d):
+    def type_arg(self, pkg, d, tagged=False):
+        for _ in range(20):
+            t = self.type_arg0(pkg, d)
+            if self.av("C15-typearg-struct-string") and has_unnamed_struct(t):
+                continue
+            if tagged and self.av("C15-func-struct-tags") and contains_func(t):
+                continue
+            return t
+        return self.basic()
+
+    def type_arg0(self, pkg, d):
         r = self.rng
         x = r.random()
         if x < 0.45:
@@ -875,11 +905,14 @@ class TypeGen:
             a = r.choice(c) if c and r.random() < 0.6 else Basic(r.choice(["int", "int8", "uint16", "float64"]))
             return Inst(g, [a])
         if g in (G_PAIR, G_M):
-            i_ = Inst(g, [self.key_type(pkg, d + 1), self.type_arg(pkg, d + 1)])
+            k_ = self.key_type(pkg, d + 1)
+            if self.av("C15-typearg-struct-string") and has_unnamed_struct(k_):
+                k_ = T_STRING
+            i_ = Inst(g, [k_, self.type_arg(pkg, d + 1, tagged=g is G_PAIR)])
             if g is G_M and not self.acceptable(Map(i_.args[0], i_.args[1])):
                 i_ = Inst(g, [i_.args[0], T_INT])
             return i_
-        return Inst(g, [self.type_arg(pkg, d + 1)])
+        return Inst(g, [self.type_arg(pkg, d + 1, tagged=g is G_WRAP)])
 
     def rand_type(self, pkg, d=0, allow_named=True):
         """a type expression valid in pkg (constructs of open findings filtered out)"""
@@ -1159,6 +1192,8 @@ class TypeGen:
                 t = self.rand_type(pkg, 1)
         if self.av("C15-alias-struct-methods-link") and isinstance(t, Struct) and any(f.embedded for f in t.fields):
             t = Slice(T_INT)
+        if self.av("C15-alias-generic-link") and isinstance(unalias(t), Inst):
+            t = Map(T_STRING, Slice(self.basic()))
         a = Alias(self.fresh("A"), pkg, t)
         self.aliases[pkg].append(a)
         return a
@@ -1685,7 +1720,7 @@ def generate(seed, index, tier="quick", only=None, avoid=()):
 
 
 EXTRA_AVOID = ("C15-method-direct-addressable", "C15-map-indirect-slot-size", "C15-empty-string-to-slice", "C15-convert-float32",
-               "C15-method-order-pkgpath", "C15-alias-struct-methods-link")
+               "C15-method-order-pkgpath", "C15-alias-struct-methods-link", "C15-alias-generic-link", "C15-typearg-struct-string")
 ALL_AVOID = ("C15-main-pkg-path", "C15-named-iface-pkgpath", "C15-structstr-tags", "C15-func-struct-tags", "C15-tag-collision",
              "C15-ptrto-extra-star", "C15-named-ptr-string", "C15-named-func-type", "C15-convert-int-narrow", "C15-chan-paren",
              "C15-funcof-func-identity", "C15-func-elem-size", "C15-ptr-func-addr", "C15-trailing-zero-size", "C15-call-pointer-args",
